@@ -53,6 +53,7 @@ Dead == "-"                    \* value shown in a record for an instance that i
 
 Val(i) == heap[ref[i]]         \* what the application reads through instance i
 FreshValue == heap[Dflt]       \* what cls() would show if it were called now
+ValNext(i) == heap'[ref'[i]]   \* Val(i) in the next state (primes the variables only, not i)
 
 TypeOK == /\ live \subseteq Inst
           /\ ref \in [Inst -> Cells]
@@ -130,7 +131,7 @@ NoSharing == \A i \in live : /\ ref[i] # Dflt
 DefaultStable == FreshValue = D0
 
 \* an API call on one instance never changes what another instance shows
-Others(i) == \A j \in (live \cap live') \ {i} : Val(j)' = Val(j)
+Others(i) == \A j \in (live \cap live') \ {i} : ValNext(j) = Val(j)
 Isolated ==
   [][/\ \A i \in Inst : (NewCore(i) \/ ParseAbsentCore(i) \/ DropCore(i)) => Others(i)
      /\ \A i \in Inst, v \in Vals : (ParsePresentCore(i, v) \/ MutateNestedCore(i, v)) => Others(i)
@@ -145,13 +146,13 @@ DefaultUntouched == [][heap'[Dflt] = heap[Dflt]]_view
 \* private: besides the default value the tokens "None" (member is None) and "A0" (a value of its own,
 \* e.g. the empty list where the constructor sets None) are accepted.
 AbsentVals == {"None", "A0"}
-ObsCreate(i, v) == i \notin live /\ live' = live \cup {i} /\ Val(i)' = v
+ObsCreate(i, v) == i \notin live /\ live' = live \cup {i} /\ ValNext(i) = v
 ObsNew(i) == ObsCreate(i, FreshValue)
-ObsParseAbsent(i) == i \notin live /\ live' = live \cup {i} /\ Val(i)' \in {FreshValue} \cup AbsentVals
+ObsParseAbsent(i) == i \notin live /\ live' = live \cup {i} /\ ValNext(i) \in {FreshValue} \cup AbsentVals
 ObsParsePresent(i, v) == ObsCreate(i, v)
 ObsCopy(s, i) == s \in live /\ ObsCreate(i, Val(s))
-ObsUpdateFrom(s, t) == s \in live /\ t \in live /\ live' = live /\ Val(t)' = Val(s)
-ObsMutate(i, v) == i \in live /\ live' = live /\ Val(i)' = v
+ObsUpdateFrom(s, t) == s \in live /\ t \in live /\ live' = live /\ ValNext(t) = Val(s)
+ObsMutate(i, v) == i \in live /\ live' = live /\ ValNext(i) = v
 ObsDrop(i) == i \in live /\ live' = live \ {i}
 ObsSound ==
   [][/\ \A i \in Inst : /\ NewCore(i) => ObsNew(i)
